@@ -243,6 +243,14 @@ func (a *diffAcc) flag(bad bool) {
 	}
 }
 
+// eqLE compares n little-endian bytes with the low bytes of v, byte by byte
+// (keeps both sides as plain byte slices of the same term for the solver).
+func (a *diffAcc) eqLE(b []byte, v int64) {
+	for i := range b {
+		a.eq(uint64(b[i]), uint64(byte(v>>(8*uint(i)))))
+	}
+}
+
 func maskOf(bits int) uint64 {
 	if bits >= 64 {
 		return ^uint64(0)
